@@ -195,6 +195,15 @@ fn dissat_corpus(ctx: CtxK) -> Vec<Node> {
         NonZero(bx(AndV(bx(v(pk(0))), bx(pk(1))))),
         NonZero(bx(AndB(bx(pk(0)), bx(Alt(bx(pk(1))))))),
         ZeroNotEqual(bx(AndB(bx(pk(0)), bx(Alt(bx(pk(1))))))),
+        // combinators over the casts t: / l: / u: (and_v(X,1), or_i(0,X), or_i(X,0)) and towers of them
+        OrI(bx(AndV(bx(v(pk(0))), bx(True))), bx(False)),                                   // u:t:v:pk
+        OrI(bx(False), bx(AndV(bx(v(pk(0))), bx(True)))),                                   // l:t:v:pk
+        OrI(bx(OrI(bx(False), bx(pk(0)))), bx(False)),                                      // u:l:pk
+        AndB(bx(OrI(bx(pk(0)), bx(False))), bx(Alt(bx(OrI(bx(False), bx(pk(1))))))),          // and_b(u:pk, a:l:pk)
+        AndOr(bx(OrI(bx(False), bx(pk(0)))), bx(AndV(bx(v(pk(1))), bx(True))), bx(OrI(bx(pk(2)), bx(False)))),
+        OrD(bx(OrI(bx(pk(0)), bx(False))), bx(AndV(bx(v(pk(1))), bx(True)))),
+        Thresh(2, vec![OrI(bx(False), bx(pk(0))), Swap(bx(OrI(bx(pk(1)), bx(False)))), Alt(bx(DupIf(bx(v(pk(2))))))]),
+        NonZero(bx(AndV(bx(v(pk(0))), bx(OrI(bx(pk(1)), bx(False)))))),
     ];
     let mut out = vec![];
     for f in fs {
@@ -360,6 +369,10 @@ fn build_tree(s: &Shape, leaves: &[Node]) -> Option<TapTree<PublicKey>> {
 /// one descriptor under test, with what the Lean judge needs to know about it
 struct DCase {
     desc: Descriptor<PublicKey>,
+    /// construction route tag appended to the wrap token of the judge lines ("" = `new_*`)
+    route: &'static str,
+    /// every script passes `validate(&Ctx::SANE)`: judged by `J dcompleteS`
+    strict: bool,
     wrap: &'static str,
     internal: Option<u32>,
     shape: String,
@@ -367,16 +380,30 @@ struct DCase {
     leaves: Vec<Node>,
 }
 
+/// does every script of the descriptor pass the library's default sanity rules
+/// (`Miniscript::validate(&Ctx::SANE)`)?  Key-only outputs have no script to check.
+fn sane_by_library(c: &DCase) -> bool {
+    use miniscript::{BareCtx, Legacy, Segwitv0};
+    fn ok<Ctx: ScriptContext>(n: &Node) -> bool { ast::to_ms::<PublicKey, Ctx>(n).map(|m| m.validate(&Ctx::SANE).is_ok()).unwrap_or(false) }
+    match c.wrap {
+        "wsh" | "shwsh" => c.leaves.iter().all(ok::<Segwitv0>),
+        "sh" => c.leaves.iter().all(ok::<Legacy>),
+        "bare" => c.leaves.iter().all(ok::<BareCtx>),
+        "tr" => c.leaves.iter().all(ok::<Tap>),
+        _ => true,
+    }
+}
+
 fn wrap_name(w: Wrap) -> &'static str {
     match w { Wrap::Wsh => "wsh", Wrap::ShWsh => "shwsh", Wrap::Sh => "sh", Wrap::Bare => "bare", Wrap::Pkh => "pkh", Wrap::Wpkh => "wpkh", Wrap::ShWpkh => "shwpkh" }
 }
 
 fn dcase_ms(w: Wrap, node: &Node) -> Option<DCase> {
-    Some(DCase { desc: desc::build_desc(w, node, 0)?, wrap: wrap_name(w), internal: None, shape: "0".into(), leaves: vec![node.clone()] })
+    Some(DCase { desc: desc::build_desc(w, node, 0)?, route: "", strict: false, wrap: wrap_name(w), internal: None, shape: "0".into(), leaves: vec![node.clone()] })
 }
 fn dcase_key(w: Wrap, key: u32) -> Option<DCase> {
     let leaf = Node::Check(Box::new(Node::PkH(key)));
-    Some(DCase { desc: desc::build_desc(w, &leaf, key)?, wrap: wrap_name(w), internal: None, shape: "0".into(), leaves: vec![leaf] })
+    Some(DCase { desc: desc::build_desc(w, &leaf, key)?, route: "", strict: false, wrap: wrap_name(w), internal: None, shape: "0".into(), leaves: vec![leaf] })
 }
 fn dcase_tr(internal: u32, shape: &str, leaves: &[Node]) -> Option<DCase> {
     let tree = if shape == "-" { None } else {
@@ -385,7 +412,7 @@ fn dcase_tr(internal: u32, shape: &str, leaves: &[Node]) -> Option<DCase> {
         Some(build_tree(&sh, leaves)?)
     };
     let desc = Descriptor::new_tr(ast::full_key(internal), tree).ok()?;
-    Some(DCase { desc, wrap: "tr", internal: Some(internal), shape: shape.into(), leaves: leaves.to_vec() })
+    Some(DCase { desc, route: "", strict: false, wrap: "tr", internal: Some(internal), shape: shape.into(), leaves: leaves.to_vec() })
 }
 
 /// the assets as the Lean table sees them: key atoms as they are written in the scripts
@@ -412,16 +439,21 @@ fn catch<T>(f: impl FnOnce() -> T) -> Option<T> { std::panic::catch_unwind(std::
 fn dcheck(out: &mut Out, c: &DCase, da: &DAssets, judge_spends: bool) {
     let sn = |b: bool| if b { "some" } else { "none" };
     let leaves_w = if c.leaves.is_empty() { "-".to_string() } else { c.leaves.iter().map(|n| n.wire()).collect::<Vec<_>>().join(";") };
-    let head = format!("{} {} {} {} {} {}", c.wrap, c.internal.map(|i| i.to_string()).unwrap_or("-".into()),
+    let tail = format!("{} {} {} {} {}", c.internal.map(|i| i.to_string()).unwrap_or("-".into()),
         c.shape, leaves_w, lean_assets(c, da).wire(), da.tapkey as u8);
+    let head = format!("{}{} {}", c.wrap, c.route, tail);
     let leaf_scripts: Vec<Vec<u8>> = if c.wrap == "tr" {
         c.leaves.iter().map(|n| ast::to_ms::<PublicKey, Tap>(n).map(|m| m.encode().into_bytes()).unwrap_or_default()).collect()
     } else { vec![] };
     let mut res = [false, false];
+    // one satisfier (real signatures over one transaction) serves all routes; only the judged
+    // spends need their own (they record which signatures were handed out)
+    let shared = desc::tx_sat_for(&c.desc, da);
     for (mi, mall) in [true, false].into_iter().enumerate() {
         let mode = if mall { "mall" } else { "nonmall" };
-        let sat = desc::tx_sat_for(&c.desc, da);
-        let r = catch(|| if mall { c.desc.get_satisfaction_mall(&sat) } else { c.desc.get_satisfaction(&sat) });
+        let own;
+        let sat = if judge_spends { own = desc::tx_sat_for(&c.desc, da); &own } else { &shared };
+        let r = catch(|| if mall { c.desc.get_satisfaction_mall(sat) } else { c.desc.get_satisfaction(sat) });
         let r = match r {
             None => { out.line(&format!("J nopanic get_satisfaction {} {} PANIC", mode, head), "ok"); return; }
             Some(r) => r.ok(),
@@ -446,12 +478,11 @@ fn dcheck(out: &mut Out, c: &DCase, da: &DAssets, judge_spends: bool) {
             out.line(&format!("C trbest {} {} {} {} {} {}", mode, c.internal.unwrap(), c.shape, leaves_w, lean_assets(c, da).wire(), da.tapkey as u8), &choice);
         }
         if let (Some((w, ss)), true) = (&r, judge_spends) {
-            desc::judge_spend(out, &format!("{} {} {}", c.desc, mode, da.wire()), &sat, ss, w);
+            desc::judge_spend(out, &format!("{} {} {}", c.desc, mode, da.wire()), sat, ss, w);
         }
         // Descriptor::into_plan{,_mall}: Err(self) only when unsatisfiable, and Err carries the original
-        let sat2 = desc::tx_sat_for(&c.desc, da);
         let orig = c.desc.clone();
-        let p = catch(|| if mall { orig.clone().into_plan_mall(&sat2) } else { orig.clone().into_plan(&sat2) });
+        let p = catch(|| if mall { orig.clone().into_plan_mall(&shared) } else { orig.clone().into_plan(&shared) });
         match p {
             None => { out.line(&format!("J nopanic into_plan {} {} PANIC", mode, head), "ok"); }
             Some(p) => {
@@ -461,8 +492,56 @@ fn dcheck(out: &mut Out, c: &DCase, da: &DAssets, judge_spends: bool) {
             }
         }
     }
-    out.line(&format!("J dcomplete {} {} {}", head, sn(res[0]), sn(res[1])), "ok");
+    let op = if c.strict { "dcompleteS" } else { "dcomplete" };
+    out.line(&format!("J {} {} {} {}", op, head, sn(res[0]), sn(res[1])), "ok");
     out.count(&format!("dverdict {} mall={} nonmall={}", c.wrap, sn(res[0]), sn(res[1])));
+    // ---- the other ROUTES to the same answer, each judged against the table
+    // (1) the planner route: into_plan{,_mall} then Plan::satisfy with the same satisfier - TWICE
+    //     on the same Plan object (a used plan must answer like a fresh one)
+    let mut pres = [[false; 2]; 2];
+    for (mi, mall) in [true, false].into_iter().enumerate() {
+        let sat = &shared;
+        let r = catch(|| {
+            let p = if mall { c.desc.clone().into_plan_mall(sat) } else { c.desc.clone().into_plan(sat) };
+            match p { Ok(p) => { let a = p.satisfy(sat).is_ok(); let b = p.satisfy(sat).is_ok(); [a, b] } Err(_) => [false, false] }
+        });
+        match r { Some(x) => pres[mi] = x, None => { out.line(&format!("J nopanic plan-satisfy {} PANIC", head), "ok"); return; } }
+    }
+    out.line(&format!("J {} {}{}@plan {} {} {}", op, c.wrap, c.route, tail, sn(pres[0][0]), sn(pres[1][0])), "ok");
+    out.line(&format!("J {} {}{}@plan2 {} {} {}", op, c.wrap, c.route, tail, sn(pres[0][1]), sn(pres[1][1])), "ok");
+    // (2) Descriptor::satisfy(&mut TxIn, ..) (non-malleable only; the malleable slot repeats the direct answer)
+    {
+        let sat = &shared;
+        let mut txin = sat.tx.input[0].clone();
+        match catch(|| c.desc.satisfy(&mut txin, sat).is_ok()) {
+            Some(ok) => out.line(&format!("J {} {}{}@txin {} {} {}", op, c.wrap, c.route, tail, sn(res[0]), sn(ok)), "ok"),
+            None => out.line(&format!("J nopanic descriptor-satisfy {} PANIC", head), "ok"),
+        }
+    }
+    // (3) a FRESH object built by the string route (`to_string` / `from_str`): no cached spend
+    //     info, nothing called on it before the satisfier
+    {
+        use std::str::FromStr;
+        let sat = &shared;
+        let txt = c.desc.to_string();
+        match catch(|| Descriptor::<PublicKey>::from_str(&txt).ok().map(|d| {
+            let m = d.get_satisfaction_mall(sat).is_ok();
+            let d2 = Descriptor::<PublicKey>::from_str(&txt).unwrap();
+            let n = d2.get_satisfaction(sat).is_ok();
+            let d3 = Descriptor::<PublicKey>::from_str(&txt).unwrap();
+            let pm = d3.into_plan_mall(sat).is_ok();
+            let d4 = Descriptor::<PublicKey>::from_str(&txt).unwrap();
+            let pn = d4.into_plan(sat).is_ok();
+            (m, n, pm, pn)
+        })) {
+            Some(Some((m, n, pm, pn))) => {
+                out.line(&format!("J {} {}{}@str {} {} {}", op, c.wrap, c.route, tail, sn(m), sn(n)), "ok");
+                out.line(&format!("J {} {}{}@str-plan {} {} {}", op, c.wrap, c.route, tail, sn(pm), sn(pn)), "ok");
+            }
+            Some(None) => out.count("observation: descriptor text not re-parsed"),
+            None => out.line(&format!("J nopanic from_str-route {} PANIC", head), "ok"),
+        }
+    }
 }
 
 /// asset sets for a descriptor: subsets of the keys x {all, no} preimages x {all, no} locks x
@@ -523,8 +602,40 @@ fn run_desc(out: &mut Out, thorough: bool, rng: &mut Rng) {
         OrB(bx(pkh(100)), bx(Alt(bx(pkh(0))))),
         Multi(2, vec![0, 100, 1]),
         SortedMulti(1, vec![100, 0]),
+        // the two satisfier modes DISAGREE (signatures held, preimage not): every wrapper arm of
+        // get_satisfaction_mall / into_plan_mall must reach the malleable satisfier
+        AndV(bx(Verify(bx(pk(0)))), bx(OrD(bx(pk(1)), bx(Hash(HK::Sha256, 0))))),
+        AndV(bx(OrC(bx(pk(1)), bx(Verify(bx(Hash(HK::Sha256, 0)))))), bx(pk(0))),
+        Thresh(2, vec![pk(0), Swap(bx(pk(1))), Swap(bx(NonZero(bx(AndV(bx(Verify(bx(Hash(HK::Sha256, 0)))), bx(True))))))]),
     ];
     let mut cases: Vec<DCase> = vec![];
+    // ---- the other CONSTRUCTORS of the same output types: sortedmulti constructors (keys whose
+    // sorted order differs from the listing order), sh built from a Wsh / Wpkh value
+    {
+        use miniscript::descriptor::{Wpkh, Wsh};
+        let ks = |v: &[u32]| v.iter().map(|i| ast::full_key(*i)).collect::<Vec<_>>();
+        let thr = |k: usize, ids: &[u32]| miniscript::Threshold::<PublicKey, 20>::new(k, ks(ids)).map_err(|e| miniscript::Error::Unexpected(e.to_string()));
+        for (k, ids) in [(2usize, vec![9u32, 8, 1]), (1, vec![1, 0]), (2, vec![8, 9, 1, 0])] {
+            let leaf = SortedMulti(k, ids.clone());
+            let mk = |d: Result<Descriptor<PublicKey>, miniscript::Error>, wrap: &'static str, route: &'static str| d.ok().map(|desc|
+                DCase { desc, route, strict: false, wrap, internal: None, shape: "0".into(), leaves: vec![leaf.clone()] });
+            for c in [mk(thr(k, &ids).and_then(|t| Descriptor::new_wsh_sortedmulti(t)), "wsh", "@new_sortedmulti"),
+                      mk(thr(k, &ids).and_then(|t| Descriptor::new_sh_sortedmulti(t)), "sh", "@new_sortedmulti"),
+                      mk(thr(k, &ids).and_then(|t| Descriptor::new_sh_wsh_sortedmulti(t)), "shwsh", "@new_sortedmulti")] {
+                match c { Some(c) => cases.push(c), None => out.count("desc not built (sortedmulti constructor)") }
+            }
+        }
+        for n in [&scripts[2], &scripts[7], &scripts[scripts.len() - 3]] {
+            if let Ok(ms) = ast::to_ms::<PublicKey, miniscript::Segwitv0>(n) {
+                if let Ok(w) = Wsh::new(ms) {
+                    cases.push(DCase { desc: Descriptor::new_sh_with_wsh(w), route: "@new_sh_with_wsh", strict: false, wrap: "shwsh", internal: None, shape: "0".into(), leaves: vec![n.clone()] });
+                }
+            }
+        }
+        if let Ok(w) = Wpkh::new(ast::full_key(2)) {
+            cases.push(DCase { desc: Descriptor::new_sh_with_wpkh(w), route: "@new_sh_with_wpkh", strict: false, wrap: "shwpkh", internal: None, shape: "0".into(), leaves: vec![pkh(2)] });
+        }
+    }
     for w in [Wrap::Wsh, Wrap::ShWsh, Wrap::Sh, Wrap::Bare] {
         for n in &scripts { match dcase_ms(w, n) { Some(c) => cases.push(c), None => out.count(&format!("desc not built {}", wrap_name(w))) } }
     }
@@ -604,8 +715,110 @@ fn run_desc(out: &mut Out, thorough: bool, rng: &mut Rng) {
             match dcase_tr(ik, shape, &leaves) { Some(c) => cases.push(c), None => out.count("desc not built tr (duplicates)") }
         }
     }
+    // ---- the WHOLE designated miniscript corpus through every descriptor route (R1): each
+    // fragment the constructors accept, under wsh / sh(wsh) / sh / bare and as a taproot leaf
+    // (alone, and as the DEEP leaf of a three-leaf tree whose other leaves use keys nobody holds)
+    let n_own = cases.len();
+    for ctx in [CtxK::Segwitv0, CtxK::Legacy, CtxK::Bare, CtxK::Tap] {
+        let mut nodes = dissat_corpus(ctx);
+        nodes.extend(lock_multi_corpus(ctx));
+        nodes.extend(ast::dimension_corpus(ctx));
+        nodes.extend(twin_corpus(ctx));
+        nodes.extend(extra_corpus(ctx));
+        let mut seen = std::collections::BTreeSet::new();
+        for n in nodes {
+            if !seen.insert(n.wire()) { continue; }
+            // the descriptor-level satisfier (`TxSat`) knows key atoms 0..9 / 100..103 only
+            let mut ks = vec![]; n.keys(&mut ks);
+            if ks.iter().any(|k| (10..100).contains(&(k % 200))) { continue; }
+            let mut rp = vec![]; n.rawpkhs(&mut rp);
+            if !rp.is_empty() { continue; }
+            match ctx {
+                CtxK::Segwitv0 => for w in [Wrap::Wsh, Wrap::ShWsh] { match dcase_ms(w, &n) { Some(c) => cases.push(c), None => out.count("corpus fragment not built as descriptor") } },
+                CtxK::Legacy => match dcase_ms(Wrap::Sh, &n) { Some(c) => cases.push(c), None => out.count("corpus fragment not built as descriptor") },
+                CtxK::Bare => match dcase_ms(Wrap::Bare, &n) { Some(c) => cases.push(c), None => out.count("corpus fragment not built as descriptor") },
+                CtxK::Tap => {
+                    match dcase_tr(9, "0", &[n.clone()]) { Some(c) => cases.push(c), None => out.count("corpus fragment not built as descriptor") }
+                    if cases.len() % 3 == 0 {
+                        // keys 208 / 209 are never held by the corpus asset sets below
+                        if let Some(c) = dcase_tr(7, "{0,{1,2}}", &[tpk(8), AndV(bx(Verify(bx(tpk(9)))), bx(Older(10))), n.clone()]) { cases.push(c); }
+                    }
+                }
+            }
+        }
+    }
+    // ---- designated REFUSED-TODAY descriptors (R2): each is refused by the constructors for
+    // exactly one reason; if a rule ever lets one through it is judged by `J dcompleteS`
+    {
+        let chain = |m: usize, last: Node| -> Node { let mut n = last; for _ in 0..m { n = AndV(bx(Verify(bx(Older(10)))), bx(n)); } n };
+        let hchain = |m: usize| -> Node { let mut n = pk(0); for _ in 0..m { n = AndV(bx(Verify(bx(Hash(HK::Sha256, 0)))), bx(n)); } n };
+        let refused: Vec<(&str, Vec<Wrap>, Node)> = vec![
+            ("malleable: two signature-free alternatives", vec![Wrap::Wsh, Wrap::ShWsh, Wrap::Sh], AndV(bx(Verify(bx(pk(0)))), bx(OrI(bx(Hash(HK::Sha256, 0)), bx(Hash(HK::Hash160, 1)))))),
+            ("malleable: or_d over a hash", vec![Wrap::Wsh, Wrap::Sh], OrD(bx(Hash(HK::Sha256, 0)), bx(pk(0)))),
+            ("sigless branch", vec![Wrap::Wsh, Wrap::ShWsh, Wrap::Sh], OrD(bx(pk(0)), bx(AndV(bx(Verify(bx(Hash(HK::Sha256, 0)))), bx(Older(10)))))),
+            ("repeated key pk/pk", vec![Wrap::Wsh, Wrap::Sh], OrD(bx(pk(0)), bx(AndV(bx(Verify(bx(pk(0)))), bx(Older(10)))))),
+            ("repeated key pk/pkh", vec![Wrap::Wsh, Wrap::Sh], OrD(bx(pk(0)), bx(AndV(bx(Verify(bx(pkh(0)))), bx(Older(10)))))),
+            ("repeated key pk/multi", vec![Wrap::Wsh], OrD(bx(pk(0)), bx(Multi(1, vec![0, 1])))),
+            ("mixed lock units after", vec![Wrap::Wsh, Wrap::Sh], AndV(bx(Verify(bx(pk(0)))), bx(AndV(bx(Verify(bx(After(100)))), bx(After(500_000_001)))))),
+            ("mixed lock units older", vec![Wrap::Wsh], AndV(bx(Verify(bx(pk(0)))), bx(AndV(bx(Verify(bx(Older(10)))), bx(Older(4_194_305)))))),
+            ("uncompressed key under segwit", vec![Wrap::Wsh, Wrap::ShWsh], pk(100)),
+            ("uncompressed key under segwit (pkh)", vec![Wrap::Wsh], OrD(bx(pk(0)), bx(pkh(101)))),
+            ("opcode limit + 1", vec![Wrap::Wsh, Wrap::Sh], chain(101, pk(0))),
+            ("p2sh script size 520 + 1", vec![Wrap::Sh], hchain(13)),
+            ("top level not B", vec![Wrap::Wsh, Wrap::Sh, Wrap::Bare], Verify(bx(pk(0)))),
+        ];
+        // just inside the same limits: must be built and is judged like everything else
+        for (w, n) in [(Wrap::Wsh, chain(99, pk(0))), (Wrap::Sh, chain(99, pk(0))), (Wrap::Sh, hchain(12))] {
+            match dcase_ms(w, &n) { Some(c) => cases.push(c), None => out.count("observation: script just inside a limit refused") }
+        }
+        // (the `new_*` constructors apply the context rules only; the sanity rules are
+        // `validate(&Ctx::SANE)`, which is what makes a case `strict` below)
+        for (why, wraps, n) in refused {
+            for w in wraps {
+                match dcase_ms(w, &n) {
+                    Some(c) => {
+                        if sane_by_library(&c) { out.count(&format!("REFUSED-TODAY script now passes the sanity rules: {}", why)); }
+                        else { out.count(&format!("refused today by the sanity rules: {}", why)); }
+                        cases.push(c);
+                    }
+                    None => out.count(&format!("refused today by the constructor: {}", why)),
+                }
+            }
+        }
+        for (why, k) in [("uncompressed key in wpkh", 100u32), ("uncompressed key in sh(wpkh)", 101)] {
+            for w in [Wrap::Wpkh, Wrap::ShWpkh] {
+                match dcase_key(w, k) {
+                    Some(c) => { out.count(&format!("REFUSED-TODAY descriptor now built: {}", why)); cases.push(c); }
+                    None => out.count(&format!("refused today by the constructor: {}", why)),
+                }
+            }
+        }
+    }
+    // the statement's second sentence, read literally: every descriptor whose scripts pass the
+    // library's sanity rules is judged by `J dcompleteS` (non-malleable answer required whenever
+    // some leaf is table-satisfiable with its preimages known), the others by `J dcomplete`
+    for c in cases.iter_mut() { c.strict = sane_by_library(c); }
     let mut n_cases = 0u64;
-    for c in &cases {
+    for (ci, c) in cases.iter().enumerate() {
+        if ci >= n_own {
+            // corpus cases: a thin designated asset slice - everything, nothing, each single key
+            // missing, each single key alone, no preimages, no locks
+            let refs: Vec<&Node> = c.leaves.iter().collect();
+            let full = DAssets::full(&refs);
+            let mut sets = vec![full.clone(), DAssets::default()];
+            for k in full.keys.iter() {
+                let mut a = full.clone(); a.keys.remove(k); sets.push(a);
+                let mut b = full.clone(); b.keys = [*k].into_iter().collect(); sets.push(b);
+            }
+            if !full.pre.is_empty() { let mut a = full.clone(); a.pre.clear(); sets.push(a); }
+            if !(full.after.is_empty() && full.older.is_empty()) { let mut a = full.clone(); a.after.clear(); a.older.clear(); sets.push(a); }
+            // the deep-leaf trees: nobody holds keys 8 / 9
+            for a in sets.iter_mut() { if c.leaves.len() == 3 { a.keys.remove(&8); a.keys.remove(&9); } }
+            sets.sort(); sets.dedup();
+            out.count(&format!("corpus descriptor {}", c.wrap));
+            for da in &sets { n_cases += 1; dcheck(out, c, da, false); }
+            continue;
+        }
         out.count(&format!("descriptor {}", c.wrap));
         for (i, da) in dassets_for(c, thorough, rng).iter().enumerate() {
             n_cases += 1;
@@ -773,6 +986,84 @@ fn run_plan_assets(out: &mut Out, thorough: bool) {
             }
         }
     }
+    // ---- R4: `plan::Assets` built INCREMENTALLY through its public builder (`Assets::new().add(key)
+    // .add(hash).after(..).older(..)`, locks first and locks last) vs filled at once, and one
+    // Assets value USED for two descriptors in a row - same table verdict for all of them
+    {
+        use miniscript::bitcoin::hashes::{hash160, ripemd160, sha256, Hash};
+        use miniscript::bitcoin::{absolute, relative};
+        use miniscript::plan::Assets as PlanAssets;
+        let mut prev: Option<c17::DD> = None;
+        for (dd, wrap, ik, shape, leaves) in &dds {
+            let tap = *wrap == "tr";
+            let mut keys: Vec<u32> = vec![];
+            for l in leaves { l.keys(&mut keys); }
+            let mut keys: Vec<u32> = keys.into_iter().map(|k| if k >= 200 { k - 200 } else { k }).collect();
+            keys.sort(); keys.dedup();
+            let (mut af, mut ol) = (vec![], vec![]);
+            for l in leaves { l.locks(&mut af, &mut ol); }
+            let hs: Vec<(HK, u32)> = { let mut h = vec![]; for l in leaves { l.hashes(&mut h); } h };
+            let abs = af.iter().cloned().max();
+            let rel = ol.iter().map(|x| rel_canon(*x)).max();
+            let mut subsets: Vec<Vec<u32>> = vec![keys.clone(), vec![]];
+            for i in 0..keys.len() { subsets.push(keys.iter().enumerate().filter(|(j, _)| *j != i).map(|(_, k)| *k).collect()); }
+            for ks in subsets {
+                for with_ik in [false, true] {
+                    if with_ik && ik.is_none() { continue; }
+                    let mut held = ks.clone();
+                    if let (true, Some(ik)) = (with_ik, ik) { if !held.contains(ik) { held.push(*ik); } }
+                    // at once (CanSign::default(): ecdsa, key spend, any leaf, default sighash)
+                    let srcs: Vec<c17::Src> = held.iter().filter_map(|k| c17::Src::of(c17::kent(*k), c17::Rel::Exact)).collect();
+                    let pa = c17::PA { srcs, pre: hs.iter().cloned().collect(), abs, rel, ..Default::default() };
+                    let tk_eff = ik.map(|ik| pa.srcs.iter().any(|s| s.key_spend && s.covers(c17::kent(ik)))).unwrap_or(false);
+                    let la = lean_assets_pa(dd, leaves, &pa, tap);
+                    let leaves_w = leaves.iter().map(|l| l.wire()).collect::<Vec<_>>().join(";");
+                    let tail = format!("{} {} {} {} {}", ik.map(|i| i.to_string()).unwrap_or("-".into()), shape, leaves_w, la.wire(), tk_eff as u8);
+                    let add_keys = |mut a: PlanAssets| { for k in &held { a = a.add(c17::kent(*k).def.clone().into_descriptor_public_key()); } a };
+                    let add_hashes = |mut a: PlanAssets| {
+                        for (kind, h) in &hs {
+                            let v = ast::hash_value(*kind, *h);
+                            a = match kind {
+                                HK::Sha256 => a.add(sha256::Hash::from_slice(&v).unwrap()),
+                                HK::Hash256 => a.add(miniscript::hash256::Hash::from_slice(&v).unwrap()),
+                                HK::Ripemd160 => a.add(ripemd160::Hash::from_slice(&v).unwrap()),
+                                HK::Hash160 => a.add(hash160::Hash::from_slice(&v).unwrap()),
+                            };
+                        }
+                        a
+                    };
+                    let add_locks = |mut a: PlanAssets| {
+                        if let Some(x) = abs { a = a.after(absolute::LockTime::from_consensus(x)); }
+                        if let Some(x) = rel { if let Ok(l) = relative::LockTime::from_consensus(x) { a = a.older(l); } }
+                        a
+                    };
+                    let variants: Vec<(&str, PlanAssets)> = vec![
+                        ("@assets-once", pa.to_assets(&dd.leaves)),
+                        ("@assets-locks-first", add_hashes(add_keys(add_locks(PlanAssets::new())))),
+                        ("@assets-locks-last", add_locks(add_keys(add_hashes(PlanAssets::new())))),
+                    ];
+                    for (tag, assets) in variants {
+                        for mall in [true, false] {
+                            let mode = if mall { "mall" } else { "nonmall" };
+                            // the same Assets value first serves ANOTHER descriptor (used state) …
+                            if let Some(p) = &prev { let _ = catch(|| if mall { p.desc.clone().into_plan_mall(&assets).is_ok() } else { p.desc.clone().into_plan(&assets).is_ok() }); }
+                            let orig = dd.desc.clone();
+                            match catch(|| if mall { orig.clone().into_plan_mall(&assets) } else { orig.clone().into_plan(&assets) }) {
+                                None => out.line(&format!("J nopanic into_plan-assets {} {}{} {} PANIC", mode, wrap, tag, tail), "ok"),
+                                Some(p) => {
+                                    let v = match p { Ok(_) => "ok", Err(d) => if d == orig { "errsame" } else { "errdiff" } };
+                                    n += 1;
+                                    out.line(&format!("J dplan {}{} {} {} {}", wrap, tag, tail, mode, v), "ok");
+                                }
+                            }
+                        }
+                    }
+                }
+            }
+            prev = c17::dd_ms(c17::Wrap::Wsh, &Check(bx(PkK(0))));
+            let _ = dd;
+        }
+    }
     out.note("plan_assets_cases", n.to_string());
 }
 
@@ -845,5 +1136,5 @@ pub fn run(out: &mut Out, thorough: bool, seed: u64) {
     run_desc(out, thorough, &mut rng);
     run_plan_assets(out, thorough);
     out.note("distinct_nontrivial", n_frag.to_string());
-    out.note("domain", "B-typed fragments (enumerated depth 3/4, random, corpora: j: wrappers, twin branches, raw pkh, uncompressed keys, all hash kinds) x concrete (nLockTime,nSequence) on both sides of every lock x subsets of keys, preimages, raw key/signature switches; descriptors wsh/shwsh/sh/bare/pkh/wpkh/shwpkh and tr over 11 tree shapes x key subsets x preimages/locks/key-path signature with real signatures; planner (into_plan / into_plan_mall on plan::Assets): 10 scripts + 2 scripts on which the two satisfier modes disagree (signatures held, preimage not) through wsh, sh and sh(wsh) each".into());
+    out.note("domain", "MINISCRIPT routes satisfy / satisfy_malleable: B-typed fragments (enumerated depth 3/4, random, corpora: j: wrappers, twin branches, raw pkh, uncompressed keys, all hash kinds, composite dissatisfactions incl. cast towers, ast::dimension_corpus with wrapper towers, lock pairs under thresholds, wide multisigs) x concrete (nLockTime,nSequence) on both sides of every lock x subsets of keys, preimages, raw key/signature switches. DESCRIPTOR routes get_satisfaction{,_mall}, into_plan{,_mall}, into_plan + Plan::satisfy (twice on one plan), Descriptor::satisfy(TxIn), and the same on a fresh object re-parsed from its text: own descriptor list (all 8 output types, sortedmulti / sh-with-wsh / sh-with-wpkh constructors, mode-distinguishing scripts under every wrapper, 11 tree shapes, duplicate leaves, both key parities) x key subsets x preimages / locks / key path, AND the whole designated miniscript corpus under wsh / sh(wsh) / sh / bare / tr (alone and as the deep leaf) with a designated asset slice; designated refused-today descriptors (malleable, sigless branch, repeated keys, mixed lock units, uncompressed key under segwit, opcode limit + 1, p2sh size + 1, wrong top-level type) judged by J dcompleteS should a constructor accept them. PLANNER on plan::Assets: key sources in every relation, lock maxima around every lock, Assets filled at once / built incrementally (locks first, locks last) / used for another descriptor before".into());
 }
